@@ -18,8 +18,8 @@
 (*                canonical target (Views!Canon); the clause name carries the first         *)
 (*                differing row (SameLinks@<name>)                                          *)
 (*   SameInfo     unless abstract_entries = unsupported: identical sequences incl. info     *)
-(*   SameSearch   got = s (SameSearch_PlusFlagAmbiguity when the model predicts exactly    *)
-(*                the observed deviation)                                                   *)
+(*   SameSearch   got = s (SameSearch_PlusFlagAmbiguity / SameSearch_CapturedBy_<Class> when *)
+(*                the model predicts exactly the observed deviation)                        *)
 (*   ClientMismatch  a request is not Links!Follow of the model's target (machinery)        *)
 (* Design level (DRIFT): rows that stem from the site's .Links entries are rendered as      *)
 (* Target(p, entry); the search string that arrives is SearchReaches(p, ..).                *)
@@ -44,7 +44,7 @@ Learn(e) == IF Ref(e.sel).obs.mime = "" /\ ObjAgree(Ref(e.sel).obs, Obs(e))
 
 \* how a client of p asks for selector sel (a link to it, as p renders links), resp. for the root menu
 ReqOk(e) ==
-    (e.hdr => e.p \in {"H", "HS", "W"}) /\
+    (e.hdr => e.p \in {"H", "HS", "W"}) /\ e.nbytes = ReqBytes(e.req) /\     \* gamma wrote the bytes the length classes say
     IF e.sel = "/" /\ ~e.slash THEN e.req = WithHeaders(Follow(e.p, RootTarget(e.p), "", ""), e.hdr)
     ELSE e.req = WithHeaders(Follow(e.p, Target(e.p, [type |-> "1", name |-> "x", sel |-> e.sel \o (IF e.slash THEN "/" ELSE ""),
                                                       host |-> "", port |-> 0]), RootRef(e.p), ""), e.hdr)
@@ -93,12 +93,12 @@ DoObject(e) ==
 
 SearchClientOk(e) ==
     IF e.p = "M"
-    THEN /\ e.req = Follow("M", e.t, e.base, "")
+    THEN /\ e.req = Follow("M", e.t, e.base, "") /\ e.nbytes = ReqBytes(e.req)
          /\ Len(e.chain) >= 1 => e.chain[1].line = Follow("M", e.t, e.base, e.s).line
          /\ Len(e.chain) >= 2 => e.chain[2].line = "gemini://" \o ServerName
                                    \o RefPath(RefPath(e.base, e.t.href), e.chain[1].loc) \o cCRLF       \* the redirect the server actually sent
          /\ Len(e.chain) <= 2
-    ELSE e.req = Follow(e.p, e.t, e.base, e.s) /\ Len(e.chain) = 0
+    ELSE e.req = Follow(e.p, e.t, e.base, e.s) /\ Len(e.chain) = 0 /\ e.nbytes = ReqBytes(e.req)
 
 Reaches(e) == LET x == SearchReaches(e.p, e.t, e.base, e.s) IN IF x = "" THEN "(not delivered)" ELSE x
 
@@ -108,6 +108,8 @@ DoSearch(e) ==
                   ELSE IF ~SearchClientOk(e) THEN "ClientMismatch"
                   ELSE IF e.got = e.s THEN "ok"
                   ELSE IF e.got = Reaches(e) /\ PlusFlagAmbiguity(e.p, e.s) THEN "SameSearch_PlusFlagAmbiguity"
+                  ELSE IF e.got = Reaches(e) /\ SearchCapturedBy(e.p, e.t, e.base, e.s) # "none"
+                       THEN "SameSearch_CapturedBy_" \o SearchCapturedBy(e.p, e.t, e.base, e.s)
                   ELSE "SameSearch"
     /\ (IF e.got = Reaches(e) /\ (Len(e.chain) >= 1 => e.chain[1].loc = Parse(Rq(e.chain[1].line, "", TRUE)).redirect)
         THEN TRUE ELSE RecordDrift(tid, l, "search string or redirect differs from the model (SearchReaches, Parse)"))
